@@ -3,7 +3,7 @@ import ast
 import re
 
 from sa.program import src, own_nodes, call_name, parent, kwarg, AnchorMissing, enclosing_function
-from sa import guards, effects
+from sa import guards, effects, resolve
 
 EXPLANATION = (
     "Static rules over pyiga/hierarchical.py (and clients): (R04.1) container-kind taint: the values of the caller's `marked` dict "
@@ -203,8 +203,8 @@ def r04_3(ctx):
         nc = [s_ for s_ in body if isinstance(s_, ast.Assign) and src(s_.targets[0]).replace(' ', '') == 'new_cells[%s+1]' % lv]
         if nc:
             from sa import resolve as _resolve
-            v1 = src(_resolve.expand(nc[0].value, nc[0])).replace(' ', '')
-            v2 = src(_resolve.expand(c.value, c)).replace(' ', '')
+            v1 = src(_resolve.expand(nc[0].value, nc[0], keep=('new_cells', 'cells'))).replace(' ', '')
+            v2 = src(_resolve.expand(c.value, c, keep=('new_cells', 'cells'))).replace(' ', '')
             ctx.decide('R04.3', r.qual, 'new_cells[%s+1] holds the children that become active' % lv,
                        True if ('cell_children' in v1 and (v1 in v2 or 'new_cells[%s+1]' % lv in v2)) else None, nc[0], '%s / %s' % (v1[:60], v2[:60]))
     if all_sem:
@@ -554,7 +554,41 @@ def r04_7(ctx):
         ctx.met('R04.7', rf.qual, 'copy of the caller\'s marks before the first state write', cp, 'unconditional copy into fresh sets')
 
 
+def r04_9(ctx):
+    """A function of level l+1 is activated iff its support lies in the level-(l+1) REGION, the union of the active and the
+    deactivated cells of that level.  The activation filter of HSpace.refine is a containment test (issubset / <=) against a
+    set built from both self.hmesh.active[lv+1] and self.hmesh.deactivated[lv+1]; a test built from the cells of level lv alone
+    (e.g. "support avoids the children of still-active coarse cells") forgets the regions of all coarser levels."""
+    hr = ctx.prog.func(H + '.HSpace.refine')
+    nf = [s_ for s_ in own_nodes(hr.node) if isinstance(s_, ast.Assign) and len(s_.targets) == 1 and src(s_.targets[0]) == 'newfuncs']
+    adds = [s_ for s_ in own_nodes(hr.node) if isinstance(s_, ast.Expr) and isinstance(s_.value, ast.Call) and src(s_.value.func) == 'newfuncs.add']
+    site = None
+    test = None
+    for s_ in nf:
+        for comp in [x for x in ast.walk(s_.value) if isinstance(x, (ast.GeneratorExp, ast.SetComp, ast.ListComp))]:
+            for g in comp.generators:
+                if g.ifs:
+                    site, test = s_, g.ifs[0]
+    for a_ in adds:
+        facts = guards.path_conditions(a_)
+        if facts:
+            site, test = a_, facts[-1][2] if False else facts[0][2]
+    if site is None or test is None:
+        ctx.undecided('R04.9', hr.qual, 'activation filter', hr.node, 'not recognised')
+        return
+    e = resolve.expand(test, site)
+    t = src(e).replace(' ', '')
+    region = 'self.hmesh.active[lv+1]' in t and 'self.hmesh.deactivated[lv+1]' in t
+    contain = '.issubset(' in t or '<=' in t or '.issuperset(' in t or '>=' in t
+    ctx.decide('R04.9', hr.qual, src(test)[:100], True if (region and contain) else (False if not region else None), site,
+               'support contained in active[lv+1] | deactivated[lv+1]' if region and contain else
+               'the activation test `%s` is not built from the region of level lv+1 (active and deactivated cells of that level): functions '
+               'whose support sticks out of the level-(lv+1) region are activated (three levels, region of level l+1 touching the rim of '
+               'the region of level l: incidence_matrix() raises, the HB basis becomes linearly dependent)' % src(e)[:120], definite=True)
+
+
 def run(ctx):
+    r04_9(ctx)
     # R04.8 = R05.6: structure of the truncation (HB <-> THB transforms and represent_fine are observed by this property)
     import rules.C05 as c05
     ctx.shared(c05.r05_6, 'R05.6', 'R04.8')
